@@ -7,6 +7,7 @@ CONSTANTS
   Offs <- OffsGen
   Rtds = {1, 2, 3, 4}
   DistinctOnly = TRUE
+  Clk0s = {0, 1}
   MaxEv = 4
   FilterAverage = 20
 INVARIANTS Emit
